@@ -123,11 +123,31 @@ def doc_lines(r):
     return [r.choice(pool) for _ in range(r.choice([1, 1, 2, 3]))]
 
 
+DOC_NOISE = ['#[doc(hidden)]', '#[doc(alias = "zz")]', '#[doc(hidden)]']
+FORCE_DOC_NOISE = [False]
+
+
 def render_docs(lines, indent):
-    out = ''
-    for l in lines:
-        out += f'{indent}#[doc = {rs(l)}]\n'
-    return out
+    """the `#[doc = ".."]` lines in order; now and then a doc attribute that is not a text line (`#[doc(hidden)]`, `#[doc(alias = ..)]`)
+    before, between or after them: only the text lines are documentation"""
+    parts = [f'{indent}#[doc = {rs(l)}]\n' for l in lines]
+    if FORCE_DOC_NOISE[0]:
+        parts.insert(0, f'{indent}{DOC_NOISE[0]}\n')
+        if len(parts) > 2:
+            parts.insert(2, f'{indent}{DOC_NOISE[1]}\n')
+    elif ATTR_RNG.random() < 0.12:
+        parts.insert(ATTR_RNG.randrange(len(parts) + 1), f'{indent}{ATTR_RNG.choice(DOC_NOISE)}\n')
+    return ''.join(parts)
+
+
+def int_lit(n, style=None, suffix_ok=True):
+    """an integer literal in one of the spellings Rust allows (decimal, hex, octal, binary, with underscores, with a type suffix)"""
+    styles = ['dec', 'dec', 'dec', 'hex', 'oct', 'bin', 'us'] + (['suf', 'ussuf'] if suffix_ok else [])
+    st = style or ATTR_RNG.choice(styles)
+    if st == 'suf' and not suffix_ok:
+        st = 'hex'
+    return {'dec': str(n), 'hex': hex(n), 'oct': '0o%o' % n, 'bin': bin(n), 'us': (str(n)[0] + '_' + str(n)[1:]) if n >= 10 else str(n) + '_',
+            'suf': f'{n}u8', 'ussuf': f'{n}_u8'}[st]
 
 
 class Item:
@@ -407,6 +427,14 @@ class Item:
         return '(\n' + inner + indent + ')' + (';' if tuple_semicolon else '')
 
     def render(self, indent):
+        if getattr(self, 'doc_noise', False):
+            FORCE_DOC_NOISE[0] = True
+            try:
+                self.doc_noise = False
+                return self.render(indent)
+            finally:
+                FORCE_DOC_NOISE[0] = False
+                self.doc_noise = True
         s = render_docs(self.docs, indent)
         s += f'{indent}#[derive(scale_info::TypeInfo, scale::Encode)]\n' if self.encodable else f'{indent}#[derive(scale_info::TypeInfo)]\n'
         attrs = []
@@ -427,12 +455,12 @@ class Item:
                 if v.skip:
                     vattrs.append(f'{indent}    #[codec(skip)]\n')
                 if v.index is not None:
-                    vattrs.append(f'{indent}    #[codec(index = {v.index})]\n')
+                    vattrs.append(f'{indent}    #[codec(index = {int_lit(v.index, getattr(v, "lit_style", None))})]\n')
                 order = getattr(v, 'attr_order', None)
                 s += shuffled(vattrs) if order is None else ''.join(vattrs if order == 'fwd' else vattrs[::-1])
                 s += f'{indent}    {v.ident}' + self.render_shape(v.shape, v.fields, indent + '    ', False)
                 if v.disc is not None:
-                    s += f' = {v.disc}'
+                    s += f' = {int_lit(v.disc, getattr(v, "lit_style", None), suffix_ok=False)}'
                 s += ',\n'
             s += indent + '}\n'
         else:
@@ -634,6 +662,23 @@ def main():
     it.variants = [Variant(f'V{i}', 'u' if i not in (0, 128, 255) else 'x', [] if i not in (0, 128, 255) else [Field(None, u8)]) for i in range(256)]
     it = cat_item()
     it.fields = [Field(f'f{i}', [u8, bl, u16][i % 3]) for i in range(70)]
+    # doc attributes that are not text lines, before and between the text lines of the type, a member and a variant
+    it = cat_item()
+    it.doc_noise, it.capture, it.capture_text, it.explicit_capture = True, 'a', 'always', True
+    it.docs = [' first', ' second', ' third']
+    it.fields = [Field('a', u8, docs=[' fa', ' fb']), Field('b', u16, docs=[' only'])]
+    it = cat_item()
+    it.is_enum, it.doc_noise, it.capture, it.capture_text, it.explicit_capture = True, True, 'a', 'always', True
+    it.docs = [' e1', ' e2']
+    it.variants = [Variant('A', 'u', [], docs=[' va', ' vb', ' vc']), Variant('B', 'x', [Field(None, u8, docs=[' x1', ' x2'])], docs=[' vd'])]
+    # `#[codec(index = ..)]` in every spelling of an integer literal
+    it = cat_item()
+    it.is_enum = True
+    it.variants = []
+    for k, st in enumerate(['dec', 'hex', 'oct', 'bin', 'us', 'suf', 'ussuf']):
+        v = Variant(f'L{k}', 'u', [], index=16 + 3 * k)
+        v.lit_style = st
+        it.variants.append(v)
     # segment replacement: a segment occurring twice, rows that chain, the same search segment in two rows
     it = cat_item(mods=['cat', 'cat'])
     it.replace, it.fields = [('cat', 'x')], [Field('a', u8)]
